@@ -1016,12 +1016,25 @@ impl SparqlDatabase {
 
                     let object_raw = object_tokens.join(" ");
 
-                    // Handle annotation syntax {| ... |}
-                    let (object_part, annotations) = if let Some(ann_start) = object_raw.find("{|")
+                    // Handle annotation syntax {| ... |}; markers inside a quoted
+                    // literal object belong to the literal
+                    let after_literal = if object_raw.starts_with('"') {
+                        decode_ntriples_literal(&object_raw)
+                            .map_or(0, |(_, rest)| object_raw.len() - rest.len())
+                    } else {
+                        0
+                    };
+                    let (object_part, annotations) = if let Some(ann_start) = object_raw
+                        [after_literal..]
+                        .find("{|")
+                        .map(|idx| idx + after_literal)
                     {
                         let obj = object_raw[..ann_start].trim().to_string();
 
-                        if let Some(ann_end) = object_raw.find("|}") {
+                        if let Some(ann_end) = object_raw[ann_start + 2..]
+                            .find("|}")
+                            .map(|idx| idx + ann_start + 2)
+                        {
                             let ann_content = object_raw[ann_start + 2..ann_end].trim();
                             let ann_parts: Vec<&str> =
                                 ann_content.splitn(2, char::is_whitespace).collect();
